@@ -504,6 +504,7 @@ def run_scenario(sc, hooks=None, world=None, crash_after_write=None):
             hooks["finish"](tr)
         traps.flush()
     tr.unhandled = traps.unhandled
+    tr.second_firings = traps.second_firings
     tr.logged = traps.errors_logged
     return tr
 
